@@ -45,6 +45,11 @@ RuleTestClauses(e) ==
         <<"NumFailuresIsLength", ok => e.nfail = Len(e.fails)>>,
         <<"FailuresAreFailingNodes", (~t.u /\ ok) => SameFails(e.fails, t.fails)>>,
         <<"EveryFailureHasReason", ok => \A j \in 1..Len(e.fails) : e.fails[j].nreasons >= 1 /\ e.fails[j].reasons_str>>,
+        \* ... exactly one reason per truth-table row that fails the item (leaf rows and xor rows; Rule.tla ReasonCount)
+        <<"ReasonsAreTheFailingRows", (~t.u /\ ok /\ Len(e.fails) = Len(t.failidx)) =>
+              LET cs == SubstTree(rule.cond, copy, TRUE) IN
+              \A j \in 1..Len(e.fails) :
+                 e.fails[j].nreasons = ReasonCount(cs, IntV(t.failidx[j] - 1), t.sel[t.failidx[j]][1])>>,
         <<"JudgedOnCopyWithCasts", (~t.u /\ ok) => Same(e.data, copy)>>,
         <<"SameVerdictAsLiteral", (e.has_lit /\ ok) =>
               /\ e.lit_outcome = "ok" /\ e.lit_valid = e.valid /\ e.lit_tested = e.tested
